@@ -82,8 +82,8 @@ CLAIMS = {
          "rustls SNI resolution and webpki name matching are trusted."),
  "C01": ("Coq theorems on a symbolic model of the verifiers (self as trust anchor, Ed25519 only, validity, usage, names, pin first, handshake signature under the same "
          "certificate's key, client auth mandatory): an attributed identity is always a key the remote proved (explicit unforgeability hypotheses), replayed / re-signed / "
-         "non-Ed25519 / expired / malformed / wrong-name certificates are rejected, the identity is a function of the verified certificate only; tied by differential runs of "
-         "the real verifiers on thousands of concrete certificates, every single-byte mutation of valid ones, and by adversary endpoints on the fabric. Partial: cryptography "
+         "non-Ed25519 / expired / malformed / wrong-name certificates are rejected, the identity is a function of the verified (first) certificate only whatever else the presented chain holds; tied by differential runs of "
+         "the real verifiers on thousands of concrete certificates, every single-byte mutation of valid ones, and by adversary endpoints on the fabric (15 variants incl. chains carrying the victim's certificate). Partial: cryptography "
          "is assumed, not proved.",
          "ring / rustls / webpki / x509-parser soundness assumed."),
  "C02": ("Coq theorems about one-RPC-per-stream connections (Rpc.v: caller and server processes over FIFO byte pipes, any chunking, any interleaving, any handler completion "
@@ -93,9 +93,9 @@ CLAIMS = {
          "result and both servers' request logs checked. Partial: QUIC reliability and ordering are quinn's (model component).",
          "quinn's stream reliability under datagram faults is assumed and exercised."),
  "C06": ("Coq theorems: whatever bytes a stream carries the server keeps reading, starts the handler with a request that really decodes from them, or fails that stream only; "
-         "hostile streams change only themselves and honest RPCs on the same connection keep their pairing; the manager leaves its loop only on shutdown; tied by an "
+         "hostile streams change only themselves and honest RPCs on the same connection keep their pairing; the manager leaves its loop only on shutdown; tied by trace acceptance (the victim's recorded manager / handler events are replayed on Shutdown.v, which must accept them and still be in its loop with the same peers) and by an "
          "adversary endpoint with a valid identity performing random / truncated / mutated / oversized requests and every stream-level misbehaviour, unidirectional streams, "
-         "datagrams and abrupt closes while honest peers run RPCs (panic hook, liveness and correctness monitors). Partial: Rust panic-freedom is exercised, not proved.",
+         "datagrams (held open, reset or finished) and abrupt closes while honest peers run RPCs (panic hook, liveness and correctness monitors). Partial: Rust panic-freedom is exercised, not proved.",
          "panic-freedom of the transcribed Rust functions is exercised only."),
  "C12": ("Coq theorems on Rpc.v extended with abandonment (reset of the send half, stop of the receive half, possible in every caller state): once noticed, the handler is "
          "dropped and none ever starts, closed streams are absorbing, every abandoned open stream has an enabled closing step, at server quiescence every abandoned stream is "
@@ -105,7 +105,7 @@ CLAIMS = {
  "C08": ("Coq theorems on a transition system of the manager loop, handlers, API calls and shutdown(): the shutdown sequence never gets stuck and takes at most meas(s) steps, "
          "the active-peer set is empty when the cleanup is reached, afterwards no peers / handlers / handshakes remain and every API call ever issued has been answered, late "
          "calls fail at once, at most one shutdown request is accepted, and no schedule - including task cancellation by runtime teardown at any moment - leads to a panic "
-         "(true of the repaired code: two teardown defects were found, reproduced on the pinned tree and fixed by fix: commits); tied by fabric runs shutting a network down "
+         "(true of the repaired code: two teardown defects were found, reproduced on the pinned tree and fixed by fix: commits); tied by trace acceptance - the manager / handler / API events recorded by cfg-guarded trace points in every fabric run are replayed on the model (ShutdownTrace.trun, one model step per event, proved), which must accept them, end in MDone and agree with the implementation on peers, LostPeer count and answered calls - over fabric runs shutting a network down "
          "(explicitly, twice concurrently, or by dropping the last handle) with RPCs, dials and API calls in flight, and by real-time runtime-teardown runs on a multi-thread "
          "runtime under a watchdog. Partial: tokio's scheduling and runtime-drop behaviour are the runtime's.",
          "user handlers are assumed cancellable and panic-free; tokio runtime behaviour is trusted."),
